@@ -303,9 +303,9 @@ func ssRunC07(ref *ssRef, m ssMut, root string) ssResult {
 	}
 	res.NA, res.NB = nA, len(j.Reqs)-nA
 	hard := j.End == "badlen" || j.End == "unknown-type" || j.End == "short-body"
-	if p, esc := ssEscapes(cfg, root, filepath.Join(root, "t"), j.Reqs); esc {
+	if p, esc := ssEscapes(cfg, root, filepath.Join(root, "t"), stream, j.Reqs); esc {
 		// containment: the mutation made a request name a path outside the scratch directory
-		res.Hist = append(res.Hist, "not-run/os-request-names-a-path-outside-the-scratch-directory")
+		res.Hist = append(res.Hist, lib.NotRunBucket)
 		res.EndClass = "not-run"
 		_ = p
 		return res
@@ -861,7 +861,17 @@ func ssChildMain(args []string) {
 		os.Exit(2)
 	}
 	root := args[0]
-	os.MkdirAll(root, 0o755)
+	// the root is handed over by the parent: it must lie in a scratch directory (the parent's are known to
+	// this process, lib.InitContainment), and relative paths of mutated frames land in <root>/cwd
+	if ok, why := lib.InScratch("", root); !ok || !filepath.IsAbs(root) {
+		fmt.Fprintln(os.Stderr, "ss child: root is not a scratch directory:", why)
+		os.Exit(2)
+	}
+	os.MkdirAll(filepath.Join(root, "cwd"), 0o755)
+	if err := os.Chdir(filepath.Join(root, "cwd")); err != nil {
+		fmt.Fprintln(os.Stderr, "ss child:", err)
+		os.Exit(2)
+	}
 	linger := len(args) > 1 && args[1] == "linger"
 	in := bufio.NewReaderSize(os.Stdin, 1<<20)
 	out := bufio.NewWriter(os.Stdout)
@@ -1175,9 +1185,14 @@ func ssCrashKey(cfg ssCfg, stderr string) (key, head string) {
 
 // ssMkBase creates the parent-owned scratch directory (fixed-length name: frame offsets do not depend on it).
 func ssMkBase(rnd func() uint32) (string, error) {
+	outer, err := lib.ScratchOuter() // (its name has a fixed length too)
+	if err != nil {
+		return "", err
+	}
 	for i := 0; i < 100; i++ {
-		d := filepath.Join(os.TempDir(), fmt.Sprintf("vhss-%010d", rnd()))
+		d := filepath.Join(outer, fmt.Sprintf("vhss-%010d", rnd()))
 		if err := os.Mkdir(d, 0o755); err == nil {
+			lib.AddScratch(d)
 			return d, nil
 		} else if !os.IsExist(err) {
 			return "", err
